@@ -370,6 +370,9 @@ def _obligations(tier, seed):
         add(d, "TakagiSugeno", ("Constant", "Linear"), (0, 1), None)
         add(d, "Automatic", ("Constant", "Linear"), (0, 1, 1), "UnboundedSum", batch=2)
         add(d, "Automatic", ("Function", "Constant"), (0, 1), None, batch=2)
+        # the same term activated twice with no aggregation operator: the degrees add up BEFORE a degree-dependent value is read
+        add(d, "Automatic", ("Function", "Constant"), (0, 1, 0), None)
+        add(d, "TakagiSugeno", ("Triangle", "Constant"), (0, 0, 1), None)
     # 2. Tsukamoto (inferred and explicit), inverse Tsukamoto, explicit TakagiSugeno on monotonic terms
     for d in defs:
         for k in MONO:
